@@ -343,6 +343,10 @@ impl Array4 {
         }
 
         // Read packed 4-bit byte array
+        // Check the length first: the block is not allocated for an image that cannot hold it
+        if cursor.remaining() < num_bytes {
+            return Err(Error::insufficient_data("data"));
+        }
         let mut data = vec![0u8; num_bytes];
         // The register block is present whether or not the COMPACT flag is set (for
         // HLL arrays the flag only concerns the form of the Hll4 exception list).
